@@ -250,6 +250,7 @@ Proof.
   - intros H; inversion H; subst. apply Gu. intros b Hb. apply G_watchers. exact Hb.
   - intros H; inversion H; subst. apply fr_refl.
   - intros H; inversion H; subst. apply fr_refl.
+  - (* SResumeReq *) destruct (a_st a); intros H; inversion H; subst; try apply fr_refl. apply fr_deliver_sys.
 Qed.
 
 Lemma fr_process_user s  e s' o p : process_user roles s u0 e = (s', o, p) -> fr s s'.
